@@ -348,6 +348,54 @@ theorem restart_core (s0 : Sess) (hcw : CacheWF s0.rib) (hok0 : FamOK s0.rib) (n
   | none =>
     simp only [(lastOf_none_iff _ _).1 hl, Bool.not_false, Bool.and_true]
 
+/-- **Two reloads, the second while the session is down for the re-establishment the first one asked for**
+    (finding F106 / F109).  From any attached state `s0`: reload 1 parses `n1` (its routes are queued), the session
+    is reset; reload 2 parses `n2` (same families) and `reconfigure` runs `replace_reload(link, n2.routes)` where the
+    link is what the definitions that never reached the RIB held — `old ++ n1.routes`; the next session runs
+    `replace_restart([], n2.routes)`.  Drained, it leaves an EMPTY peer table at `deltaView` of the ORIGINAL cache
+    against `old ++ n1.routes`: the routes of `n2`, and of everything else only what neither `old` nor `n1`
+    ever configured (the API routes). -/
+theorem reload_chain_down_core (s0 : Sess) (hcw : CacheWF s0.rib) (hok0 : FamOK s0.rib) (n1 n2 : Nbr) (old : List Route)
+    (h1 : RoutesOK n1) (h2 : RoutesOK n2) (hf1 : s0.rib.families = n1.fams) (hf2 : n1.fams = n2.fams) :
+    let s1 := ((s0.run (insertOps n1)).1.step .lost).1
+    let s2 : Sess := { (parseSess (some s1) n2) with rib := (parseSess (some s1) n2).rib.replaceReload (old ++ n1.plain) n2.plain }
+    let s3 := (s2.step (.established [] n2.plain)).1
+    Good s3 [] ∧ ∀ m, AList.lookup m (applyEvs [] s3.drain.2) = deltaView s0.rib.cacheView (old ++ n1.plain) n2.plain m := by
+  intro s1 s2 s3
+  have w1 : CacheWF (s0.run (insertOps n1)).1.rib := cacheWF_run s0 (insertOps n1) (insertOps_isRibOnly n1) hcw
+  obtain ⟨c1, c2, c3⟩ := parsed_cache s0 n1 h1 hcw.2
+  have dn : Down s1.rib := down_reset (s0.run (insertOps n1)).1.rib w1.1 w1.2
+  have hok1 : FamOK s1.rib := reset_famOK _ (parsed_famOK s0 n1 h1 hf1 hok0)
+  have hfam1 : s1.rib.families = n2.fams := by
+    show (s0.run (insertOps n1)).1.rib.reset.families = n2.fams
+    rw [← hf2, ← hf1, ← c2]; rfl
+  have hi : s1.inflight = none := rfl
+  have hw : s1.inclWd = false := rfl
+  obtain ⟨g3, htab⟩ := reload_down_core s1 dn hi hw n2 (old ++ n1.plain) h2 hfam1 hok1
+  refine ⟨g3, fun m => ?_⟩
+  rw [htab m]
+  have hcv : s1.rib.cacheView m = (s0.run (insertOps n1)).1.rib.cacheView m := rfl
+  unfold deltaView
+  cases hl : lastOf n2.plain m with
+  | some r => rfl
+  | none =>
+    simp only
+    by_cases hp : hasNlri (old ++ n1.plain) m = true
+    · simp [hp]
+    · have hp' : hasNlri (old ++ n1.plain) m = false := by simpa using hp
+      simp only [hp', Bool.false_eq_true, if_false]
+      rw [hcv, c3 m]
+      have hn1 : lastOf n1.plain m = none := by
+        rw [lastOf_none_iff]
+        cases hh : hasNlri n1.plain m with
+        | false => rfl
+        | true =>
+          have : hasNlri (old ++ n1.plain) m = true := by
+            simp only [hasNlri, List.any_append, Bool.or_eq_true] at hh ⊢
+            exact Or.inr hh
+          rw [this] at hp'; cases hp'
+      rw [hn1]
+
 /-- A peer the reload creates: fresh RIB, nothing previous, first establishment. -/
 theorem new_peer_core (n : Nbr) (h : RoutesOK n) :
     let s1 := parseSess none n
